@@ -210,12 +210,14 @@ class Fixture:
     def monorail_cmd(self, args):
         return [self.bins["monorail"], "-f", self.cfg_path] + list(args)
 
-    def monorail(self, args, env=None, timeout=180, stdin=None, limit_as=None):
+    def monorail(self, args, env=None, timeout=180, stdin=None, limit_as=None, prlimit=None):
         """Run to completion. Returns dict rc, out (parsed stdout JSON or None), err (list of parsed stderr JSON),
         raw stdout/stderr. limit_as: address-space limit in bytes (the invocation may then die of it: rc -6)."""
         cmd = self.monorail_cmd(args)
         if limit_as:
             cmd = ["prlimit", "--as=%d" % limit_as] + cmd
+        if prlimit:
+            cmd = ["prlimit"] + list(prlimit) + cmd
         p = subprocess.Popen(cmd, cwd=self.repo, env=self.env(env), stdout=subprocess.PIPE,
                              stderr=subprocess.PIPE, stdin=subprocess.PIPE if stdin is not None else subprocess.DEVNULL,
                              start_new_session=True)
@@ -249,8 +251,8 @@ class Fixture:
                 errs.append({"raw": line})
         return {"rc": rc, "timeout": False, "out": out, "err": errs, "stdout": so, "stderr": se}
 
-    def spawn(self, args, env=None, stdout=subprocess.PIPE, stderr=subprocess.PIPE):
-        p = subprocess.Popen(self.monorail_cmd(args), cwd=self.repo, env=self.env(env), stdout=stdout,
+    def spawn(self, args, env=None, stdout=subprocess.PIPE, stderr=subprocess.PIPE, prefix=None):
+        p = subprocess.Popen(list(prefix or []) + self.monorail_cmd(args), cwd=self.repo, env=self.env(env), stdout=stdout,
                              stderr=stderr, stdin=subprocess.DEVNULL, start_new_session=True)
         self.procs.append(p)
         return p
